@@ -141,14 +141,14 @@ def disaggSpec (res : Nat) (fields : List String) (tol : Rat) (input output : Li
 
 /-- well-formedness assumed by `disagg_spec_bridge` (decidable; evaluated by the driver on every
 case): in every slice the period resolution `L` is a multiple of `res`, every period starts on the
-first of a month from 1970 on and is exactly `L` months long, no cell occurs twice, and two cells
+first of a (real) month from 1970 on and is exactly `L` months long, no cell occurs twice, and two cells
 with the same evaluation date have disjoint periods -/
 def disaggWF (res : Nat) (t : List Cell) : Bool :=
   (Triangle.slices t).all fun sl =>
     match periodResolution sl.2 with
     | .ok L =>
       decide (1 ≤ res) && decide (0 < L) && L % (res : Int) == 0 && decide sl.2.Nodup &&
-      sl.2.all (fun c => c.ps.d == 1 && decide (0 ≤ monthToId c.ps) &&
+      sl.2.all (fun c => c.ps.valid && c.ps.d == 1 && decide (0 ≤ monthToId c.ps) &&
         c.pe == (addMonths c.ps ((L.toNat : Nat) : Rat)).pred &&
         decide ((c.values.map (·.1)).Nodup)) &&
       sl.2.all fun c => sl.2.all fun c' =>
